@@ -3,6 +3,8 @@ package props
 import (
 	"fmt"
 	"go/ast"
+	"go/token"
+	"go/types"
 	"sort"
 	"strings"
 
@@ -13,9 +15,9 @@ func init() {
 	register(&Prop{
 		ID:       "C47",
 		Title:    "Embedded fonts cover every character drawn with them",
-		Patterns: []string{"./d2renderers/...", "./d2themes/...", "./lib/color", "./lib/svg", "./d2target", "./lib/textmeasure", "./lib/jsrunner"},
+		Patterns: []string{"./d2renderers/...", "./d2themes/...", "./lib/color", "./lib/svg", "./d2target", "./lib/textmeasure", "./lib/jsrunner", "./lib/font"},
 		Explanation: "Decides field-set inclusion between what is drawn and what is measured for font subsetting: the set of d2target field paths (e.g. Connection.SrcLabel.Label) from which the renderers derive strings that reach an XML *text* position — computed by the origin-tracking slice of the taint engine over d2svg, appendix and d2sketch — is included in the set of field paths that flow into the string returned by Diagram.GetCorpus; " +
-			"GetNestedCorpus recurses into Layers, Scenarios and Steps; and the subsetting call falls back to the full font encoding on error.",
+			"GetNestedCorpus recurses into Layers, Scenarios and Steps; and the subsetting call falls back to the full font encoding on error. Also the no-filter clause: on the way from the corpus to the subset font's character map (de-duplication in Font.GetEncodedSubset, rune numbering in font.UTF8CutFont, cmap pairs in utf8FontFile.parseSymbols) each loop records every element of its input under no other condition than a membership test of that element, and never skips one.",
 		NotCovered: "the subsetter's glyph closure (ligatures, composite glyphs), characters added by the renderer itself (constants are ASCII: list markers, ellipsis), fonts of markdown/latex content rendered by goldmark/MathJax",
 		Technique:  "static analysis: origin-tracking backward slice on go/ssa on both sides, set inclusion",
 		Run:        runC47,
@@ -27,7 +29,137 @@ var corpusExempt = map[string]string{
 	"Shape.Icon": "icon URL: drawn as an <image href>, not as glyphs",
 }
 
+// runC47NoFilter: between the corpus and the subset font's character map every character is passed on. The three
+// loops of the chain (de-duplication in GetEncodedSubset, rune numbering in UTF8CutFont, cmap pairs in
+// parseSymbols) record each element of their input under no other condition than a membership test of that very
+// element (already seen / present in the font's own dictionary), and never skip an element.
+func runC47NoFilter(c *core.Check) {
+	c.Rule("C47.no-filter", "the corpus-to-cmap chain records every character: the only conditions are membership tests of the character itself")
+	type site struct{ pkg, recv, name string }
+	n := 0
+	for _, st := range []site{{"d2renderers/d2fonts", "Font", "GetEncodedSubset"}, {"lib/font", "", "UTF8CutFont"}, {"lib/font", "utf8FontFile", "parseSymbols"}} {
+		fi := mustFunc(c, st.pkg, st.recv, st.name)
+		if fi == nil {
+			continue
+		}
+		info := fi.Pkg.TypesInfo
+		// the first range loop over a parameter
+		params := map[types.Object]bool{}
+		sig := fi.Obj.Type().(*types.Signature)
+		for i := 0; i < sig.Params().Len(); i++ {
+			params[sig.Params().At(i)] = true
+		}
+		var loop *ast.RangeStmt
+		ast.Inspect(fi.Decl.Body, func(x ast.Node) bool {
+			if rs, ok := x.(*ast.RangeStmt); ok && loop == nil && params[core.ObjOf(info, rs.X)] {
+				loop = rs
+			}
+			return loop == nil
+		})
+		key := "no-filter:" + fname(fi)
+		if loop == nil || loop.Value == nil {
+			c.Fail("C47.no-filter", key, fi.Decl.Pos(), "no loop over the input parameter found: the rule cannot be instantiated")
+			continue
+		}
+		elem := core.ObjOf(info, loop.Value)
+		n++
+		// (a) no element is skipped
+		bad := ""
+		ast.Inspect(loop.Body, func(x ast.Node) bool {
+			if _, ok := x.(*ast.FuncLit); ok {
+				return false
+			}
+			if br, ok := x.(*ast.BranchStmt); ok && bad == "" {
+				bad = fmt.Sprintf("the loop has a %s (line %d)", br.Tok, c.P.Fset.Position(br.Pos()).Line)
+			}
+			return true
+		})
+		// (b) records keyed by / made of the element are guarded by membership tests of the element only
+		fl := core.NewFlow(fi.Pkg, fi.Decl.Body)
+		nrec := 0
+		ast.Inspect(loop.Body, func(x ast.Node) bool {
+			as, ok := x.(*ast.AssignStmt)
+			if !ok || bad != "" {
+				return true
+			}
+			records := false
+			for _, l := range as.Lhs {
+				if ix, ok := ast.Unparen(l).(*ast.IndexExpr); ok && core.ObjOf(info, ix.Index) == elem {
+					records = true // M[elem] = …
+				}
+			}
+			for _, r := range as.Rhs {
+				if core.Contains(r, func(y ast.Node) bool { id, ok := y.(*ast.Ident); return ok && info.Uses[id] == elem }) {
+					if _, isIdx := ast.Unparen(as.Lhs[0]).(*ast.IndexExpr); isIdx || as.Tok == token.ASSIGN {
+						records = true // M[k] = f(elem), s = s + string(elem)
+					}
+				}
+			}
+			if !records {
+				return true
+			}
+			nrec++
+			for _, g := range fl.GuardsOfNode(as) {
+				if g.Cond.Pos() < loop.Body.Pos() || g.Cond.End() > loop.Body.End() {
+					continue
+				}
+				for _, a := range g.Atoms() {
+					if !membershipOnly(info, fi, a.Cond, elem) {
+						bad = fmt.Sprintf("%s is recorded only when %s", exprStr(as.Lhs[0]), exprStr(a.Cond))
+					}
+				}
+			}
+			return true
+		})
+		if bad == "" && nrec == 0 {
+			bad = "the loop records nothing about its elements"
+		}
+		c.Decide(bad == "", "C47.no-filter", key, loop.Pos(), fmt.Sprintf("every element of %s is recorded (%d records, membership tests only)", exprStr(loop.X), nrec),
+			fmt.Sprintf("%s drops characters on the way from the corpus to the subset font's character map (%s): a character that is drawn with the embedded font but filtered here has no glyph in it and is rendered with a fallback font", fname(fi), bad))
+	}
+	if n < 3 {
+		c.Fail("C47.no-filter", "no-filter:inventory", token.NoPos, fmt.Sprintf("only %d of the 3 chain loops found", n))
+	}
+}
+
+// membershipOnly: the condition is a comma-ok flag (or its negation) of a map lookup keyed by elem.
+func membershipOnly(info *types.Info, fi *core.FuncInfo, cond ast.Expr, elem types.Object) bool {
+	cond = ast.Unparen(cond)
+	if u, ok := cond.(*ast.UnaryExpr); ok && u.Op == token.NOT {
+		cond = ast.Unparen(u.X)
+	}
+	// seen[elem] used directly as the condition
+	if ix, ok := cond.(*ast.IndexExpr); ok && core.ObjOf(info, ix.Index) == elem {
+		if _, isMap := info.TypeOf(ix.X).Underlying().(*types.Map); isMap {
+			return true
+		}
+	}
+	id, ok := cond.(*ast.Ident)
+	if !ok {
+		return false
+	}
+	flag := info.Uses[id]
+	found := false
+	ast.Inspect(fi.Decl.Body, func(n ast.Node) bool {
+		as, ok := n.(*ast.AssignStmt)
+		if !ok || len(as.Lhs) != 2 || len(as.Rhs) != 1 {
+			return true
+		}
+		if core.ObjOf(info, as.Lhs[1]) != flag {
+			return true
+		}
+		if ix, ok := ast.Unparen(as.Rhs[0]).(*ast.IndexExpr); ok && core.ObjOf(info, ix.Index) == elem {
+			if _, isMap := info.TypeOf(ix.X).Underlying().(*types.Map); isMap {
+				found = true
+			}
+		}
+		return true
+	})
+	return found
+}
+
 func runC47(c *core.Check) {
+	runC47NoFilter(c)
 	c.Rule("C47.corpus", "field paths drawn as text ⊆ field paths collected by GetCorpus")
 	c.Rule("C47.nested", "GetNestedCorpus recurses into layers, scenarios and steps")
 	c.Rule("C47.fallback", "GetEncodedSubset returns the full encoding when subsetting fails")
